@@ -34,6 +34,7 @@ type Result struct {
 	Replicas    []map[string]any `json:"replicas,omitempty"`
 	Sessions    int              `json:"primary_sessions"`
 	WaitMisses  int              `json:"wait_misses,omitempty"`
+	Regressions int              `json:"regressions,omitempty"` // equal, then different again 2 s later, before settling
 }
 
 // ChildSpec is the input of a child.
@@ -236,28 +237,10 @@ func runCase(spec *ChildSpec) *Result {
 	res.LiveKeys = len(want.Scan)
 	start := time.Now()
 	deadline := start.Add(bound(c))
-	var lastDiff string
-	lastIdx := -1
-	for {
-		lastDiff, lastIdx = "", -1
-		for i, n := range reps {
-			setStep("observe replica%d", i)
-			got := drive.Observe(n.Eng, prog)
-			if d := diffSnap(c.Keys, want, got, "primary", n.Name); d != "" {
-				lastDiff, lastIdx = d, i
-				break
-			}
-		}
-		setStep("")
-		if lastDiff == "" {
-			break
-		}
-		if time.Now().After(deadline) {
-			break
-		}
-		time.Sleep(25 * time.Millisecond)
+	hold := 2000
+	if spec.HoldMs > 0 {
+		hold = spec.HoldMs
 	}
-	res.ConvergeMs = time.Since(start).Milliseconds()
 	fill := func() {
 		setStep("status")
 		res.PrimarySeq = 0
@@ -268,39 +251,71 @@ func runCase(spec *ChildSpec) *Result {
 		if m, _ := filepath.Glob(filepath.Join(prim.Dir, "wal", "*.wal")); m != nil {
 			res.PrimaryWALs = len(m)
 		}
+		res.Replicas = nil
 		for _, n := range reps {
 			res.Replicas = append(res.Replicas, replicaStatus(n.Mgr))
 		}
 	}
+	compare := func() (string, int) {
+		for i, n := range reps {
+			setStep("observe replica%d", i)
+			got := drive.Observe(n.Eng, prog)
+			if d := diffSnap(c.Keys, want, got, "primary", n.Name); d != "" {
+				setStep("")
+				return d, i
+			}
+		}
+		setStep("")
+		return "", -1
+	}
+	// The property holds if there is a moment within the bound at which every
+	// replica equals the primary and still does 2 s later. An equality that does
+	// not last is not yet "reached": a replica restarted on its own directory
+	// already holds the final state, replays the log from sequence 1 (visibly
+	// going back in time) and only then settles. Such episodes are counted.
+	var lastDiff, regressDiff string
+	lastIdx, regressIdx := -1, -1
+	firstEqual := int64(-1)
+	for {
+		lastDiff, lastIdx = compare()
+		if lastDiff == "" {
+			if firstEqual < 0 {
+				firstEqual = time.Since(start).Milliseconds()
+			}
+			res.ConvergeMs = time.Since(start).Milliseconds()
+			time.Sleep(time.Duration(hold) * time.Millisecond)
+			setStep("observe primary again")
+			want2 := drive.Observe(prim.Eng, prog)
+			if d := diffSnap(c.Keys, want, want2, "primary", "primary-later"); d != "" {
+				return infra("primary state moved without writes: %s", d)
+			}
+			d, i := compare()
+			if d == "" {
+				break // reached and stayed
+			}
+			res.Regressions++
+			regressDiff, regressIdx = d, i
+			lastDiff, lastIdx = d, i
+		}
+		if time.Now().After(deadline) {
+			break
+		}
+		time.Sleep(25 * time.Millisecond)
+	}
 	if lastDiff != "" {
+		res.ConvergeMs = time.Since(start).Milliseconds()
 		fill()
 		res.Verdict = "violation"
+		if regressDiff != "" {
+			res.Sig = "left-converged-state:" + cause(c, res, regressIdx)
+			res.Msg = fmt.Sprintf("replica%d equalled the primary %d ms after the last write but %d time(s) differed again %d ms later and had not settled %d ms after the last write (bound %d ms): %s; replica status %v",
+				regressIdx, firstEqual, res.Regressions, hold, res.ConvergeMs, res.BoundMs, regressDiff, res.Replicas[regressIdx])
+			return res
+		}
 		res.Sig = "no-convergence:" + cause(c, res, lastIdx)
 		res.Msg = fmt.Sprintf("replica%d differs from the primary %d ms after the last write (bound %d ms): %s; replica status %v",
 			lastIdx, res.ConvergeMs, res.BoundMs, lastDiff, res.Replicas[lastIdx])
 		return res
-	}
-	hold := 2000
-	if spec.HoldMs > 0 {
-		hold = spec.HoldMs
-	}
-	setStep("")
-	time.Sleep(time.Duration(hold) * time.Millisecond)
-	setStep("observe again")
-	want2 := drive.Observe(prim.Eng, prog)
-	if d := diffSnap(c.Keys, want, want2, "primary", "primary-later"); d != "" {
-		return infra("primary state moved without writes: %s", d)
-	}
-	for i, n := range reps {
-		got := drive.Observe(n.Eng, prog)
-		if d := diffSnap(c.Keys, want, got, "primary", n.Name); d != "" {
-			fill()
-			res.Verdict = "violation"
-			res.Sig = "left-converged-state:" + cause(c, res, i)
-			res.Msg = fmt.Sprintf("replica%d equalled the primary after %d ms but differs %d ms later: %s; replica status %v",
-				i, res.ConvergeMs, hold, d, res.Replicas[i])
-			return res
-		}
 	}
 	fill()
 	res.Verdict = "ok"
